@@ -269,6 +269,7 @@ PARTS = {
     "mj_step": _mj("mj_step"),
     "mj_model": _mj("mj_model"),
     "mj_physics": _mj("mj_physics"),
+    "mj_options": _mj("mj_options"),
 }
 
 # ----------------------------------------------------------------------------- strategies
@@ -322,7 +323,7 @@ def run(ctx: Ctx):
         "(validated against Gymnasium's step in the same run), reward/termination of the very transition Gymnasium produced, "
         "CartPole(Euler) trajectories of up to 200 steps, initial-state ranges over 4096 keys. MuJoCo (process pool, float32): "
         "model/frame-skip/dt identity, reset observation vs Gymnasium after set_state, step semantics with physics substituted "
-        "(Gymnasium's own step() on lerax's successor state), single-step physics vs C MuJoCo. Non-trivial: transition reaching "
+        "(Gymnasium's own step() on lerax's successor state), single-step physics vs C MuJoCo, documented constructor options (every flag toggled, drawn weight/range changes; uph_cost_weight excluded because the reference ignores it) vs Gymnasium built with the same options. Non-trivial: transition reaching "
         "the goal/terminal set or touching a limit; MuJoCo: first step of an episode, unhealthy successor, contact."
     )
     ctx.assumptions = ["Gymnasium 1.3 classic-control and MuJoCo v5 environments and MuJoCo C physics are the reference", "x64 for classic control"]
